@@ -1747,20 +1747,22 @@ func findRequiredLandmarkChainLeftToRight(r *Runner, chain *syntax.RequiredLandm
 	}
 
 	for searchStart := r.Runtextpos; searchStart <= latestPossibleStart(r); {
-		first, ok := findNextRequiredLandmarkRunes(r.Runtext, searchStart, r.Runtextend, chain.Landmarks[0])
+		first, firstMinEnd, ok := findNextRequiredLandmarkRunes(r.Runtext, searchStart, r.Runtextend, chain.Landmarks[0])
 		if !ok {
 			r.Runtextpos = r.Runtextend
 			return false
 		}
 
-		nextStart := first.End
+		// the next landmark may begin as soon as this one has its minimum: a set core that
+		// greedily took more would hide characters the following landmark needs
+		nextStart := firstMinEnd
 		for i := 1; i < len(chain.Landmarks); i++ {
-			landmark, ok := findNextRequiredLandmarkRunes(r.Runtext, nextStart, r.Runtextend, chain.Landmarks[i])
+			_, minEnd, ok := findNextRequiredLandmarkRunes(r.Runtext, nextStart, r.Runtextend, chain.Landmarks[i])
 			if !ok {
 				r.Runtextpos = r.Runtextend
 				return false
 			}
-			nextStart = landmark.End
+			nextStart = minEnd
 		}
 
 		candidate := first.Start
@@ -1788,15 +1790,21 @@ type requiredLandmarkMatch struct {
 	End       int
 }
 
-func findNextRequiredLandmarkRunes(input []rune, startAt, endAt int, landmark syntax.RequiredLandmark) (requiredLandmarkMatch, bool) {
+// findNextRequiredLandmarkRunes also returns where the landmark ends when its core takes only
+// its minimum repetitions, i.e. the earliest position at which the next landmark can begin.
+func findNextRequiredLandmarkRunes(input []rune, startAt, endAt int, landmark syntax.RequiredLandmark) (requiredLandmarkMatch, int, bool) {
 	for i := startAt; i < endAt; i++ {
 		for _, alt := range landmark.Alternatives {
 			if match, ok := requiredLandmarkAlternativeMatch(input, i, endAt, alt); ok {
-				return match, true
+				minEnd := match.End
+				if len(alt.Literal) == 0 && alt.Set != nil && match.CoreStart+alt.MinRepeat < minEnd {
+					minEnd = match.CoreStart + alt.MinRepeat
+				}
+				return match, minEnd, true
 			}
 		}
 	}
-	return requiredLandmarkMatch{}, false
+	return requiredLandmarkMatch{}, 0, false
 }
 
 func requiredLandmarkAlternativeMatch(input []rune, start, endAt int, alt syntax.RequiredLandmarkAlternative) (requiredLandmarkMatch, bool) {
